@@ -1012,6 +1012,13 @@ func (bc *BlockChain) WriteBlockWithState(block *types.Block, receipts []*types.
 	if reorg {
 		// Reorganise the chain if the parent is not the head block
 		if block.ParentHash() != currentBlock.Hash() {
+			// The reorganisation re-points the head at this block: its own
+			// header, body and receipts must be on disk before that, or a
+			// crash in between leaves a head pointer to a missing block.
+			if err := batch.Write(); err != nil {
+				return NonStatTy, err
+			}
+			batch.Reset()
 			if err := bc.reorg(currentBlock, block); err != nil {
 				return NonStatTy, err
 			}
